@@ -137,6 +137,14 @@ def specs(ctx):
                     "kwargs": {"maxcor": int(rng.choice([1, 2, 3, 5, 10])), "ftol": 0.0, "gtol": 1e-10,
                                "maxiter": int(rng.integers(4, 14)), "maxfun": 500, "maxls": 20},
                     "cond": float(10 ** rng.uniform(0, 2)), "kmax": 7, "cmp": 6})
+    # the same relations in other units of the objective (f multiplied by 2^+-33, 2^40): the curvature s.y / y.y of every
+    # pair moves by that factor while the relative curvature test of the memory is unaffected
+    for i in range(ctx.pick(45, 450)):
+        out.append({"family": ["qp", "qp4", "rosenbrock"][i % 3], "n": int(rng.integers(2, 7)), "pseed": int(rng.integers(1 << 30)),
+                    "fscale": [2.0 ** 33, 2.0 ** -33, 2.0 ** 40][(i // 3) % 3],
+                    "kwargs": {"maxcor": int(rng.choice([1, 3, 10])), "ftol": 0.0, "gtol": 0.0,
+                               "maxiter": int(rng.integers(4, 12)), "maxfun": 500, "maxls": 20},
+                    "cond": float(10 ** rng.uniform(0, 1.5)), "kmax": 7, "cmp": 6})
     # starved line searches (maxls 1..3) on non-convex objectives: searches fail in mid-run and the memory is reset;
     # every split point, including the ones that land on a reset
     for i in range(ctx.pick(300, 3000)):
